@@ -75,7 +75,7 @@ def main(argv):
     ctx.lean["fingerprints_changed_vs_pinned"] = changed_fp
     ctx.source_changed = bool(changed_fp)
     if tier == "thorough" and b["ok"] and getattr(mod, "LEANCHECKER", True):
-        lc = leantie.leanchecker([mod.PROOF_MODULE])
+        lc = leantie.leanchecker([mod.PROOF_MODULE] if isinstance(mod.PROOF_MODULE, str) else list(mod.PROOF_MODULE))
         ctx.lean["leanchecker"] = lc["ok"]
         if not lc["ok"]:
             ctx.tie_break("leanchecker", lc["output"])
